@@ -356,6 +356,18 @@ Definition yaml_rt_fails (v : string) : bool :=
   | EmptyString => false
   end.
 
+(* Keys are written by kyaml's FieldSetter as untagged plain scalars, so go-yaml resolves them when the text is
+   read back: a key spelled ~, null, Null or NULL (or the empty string) is the YAML null, and decoding a null key
+   into map[string]interface{} drops the entry; the key << is the YAML merge key, whose scalar value makes the
+   decoder fail ("map merge requires map or sequence of maps as the value"). *)
+Definition yaml_null_key (k : string) : bool :=
+  String.eqb k "~" || String.eqb k "null" || String.eqb k "Null" || String.eqb k "NULL" || String.eqb k "".
+Definition yaml_merge_key (k : string) : bool := String.eqb k "<<".
+
+(* the entries of a data map that reach the hasher *)
+Definition hash_view (d : list (string * string)) : list (string * string) :=
+  filter (fun kv => negb (yaml_null_key (fst kv))) d.
+
 (* ------------------------------------------------------------------ hasher.encodeConfigMap / encodeSecret *)
 
 (* What the hasher reads of an object.  NOTE (follows the code, not its comment): getNodeValues looks the
@@ -369,11 +381,11 @@ Record content := mkContent {
 }.
 
 Definition enc_data (d : option (list (string * string))) : string :=
-  match d with None => """""" | Some m => json_obj m end.
+  match d with None => """""" | Some m => json_obj (hash_view m) end.
 
 (* json.Marshal of the map: members in sorted key order (binaryData < data < kind < name < type) *)
 Definition encode_cm (c : content) : string :=
-  "{" ++ (match ct_bin c with [] => "" | b => """binaryData"":" ++ json_obj b ++ "," end)
+  "{" ++ (match ct_bin c with [] => "" | b => """binaryData"":" ++ json_obj (hash_view b) ++ "," end)
       ++ """data"":" ++ enc_data (ct_data c) ++ ",""kind"":""ConfigMap"",""name"":""""}".
 
 Definition encode_secret (c : content) : string :=
@@ -382,10 +394,15 @@ Definition encode_secret (c : content) : string :=
 Definition encode_content (c : content) : string :=
   if ct_secret c then encode_secret c else encode_cm c.
 
-Definition dict_rt_fails (d : option (list (string * string))) : bool :=
-  match d with None => false | Some m => existsb (fun kv => yaml_rt_fails (snd kv)) m end.
+(* the YAML text of the map cannot be read back *)
+Definition entries_rt_fail (m : list (string * string)) : bool :=
+  existsb (fun kv => yaml_rt_fails (snd kv) || yaml_merge_key (fst kv)) m.
+
+Definition content_rt_fails (c : content) : bool :=
+  (match ct_data c with None => false | Some m => entries_rt_fail m end) ||
+  (if ct_secret c then false else entries_rt_fail (ct_bin c)).
 
 (* Hasher.Hash for kind ConfigMap / Secret *)
 Definition hash_content (c : content) : res string :=
-  if dict_rt_fails (ct_data c) || existsb (fun kv => yaml_rt_fails (snd kv)) (ct_bin c) then Err
+  if content_rt_fails c then Err
   else encode_suffix (hex256 (encode_content c)).
